@@ -43,6 +43,8 @@ type Target struct {
 	// block that contains the index expression over IndexOf is returned (selector assignment,
 	// atomic.StoreUintNN(&f, e) and atomic.AddUintNN(&f, d) are the recognised writes).
 	StoreTo string `json:"store_to"`
+	// Local (mode "local"): name of the local variable whose defining expression is translated.
+	Local string `json:"local"`
 	// Case (modes "index"/"store", optional): restrict the search to the body of the first switch case
 	// clause whose expression list contains this identifier (e.g. RoundRobinRouting).
 	Case string `json:"case"`
@@ -967,6 +969,29 @@ func main() {
 			} else {
 				body = cond()
 			}
+		case "local":
+			// the right-hand side of the first `name := expr` / `name = expr` for the local variable
+			// tg.Local in the function; every other identifier is a free variable (typed by "free")
+			if tg.Local == "" {
+				die("%s: mode local needs \"local\"", tg.Func)
+			}
+			var rhs ast.Expr
+			ast.Inspect(fd.Body, func(n ast.Node) bool {
+				if rhs != nil {
+					return false
+				}
+				if a, ok := n.(*ast.AssignStmt); ok && len(a.Lhs) == 1 && len(a.Rhs) == 1 {
+					if id, ok := a.Lhs[0].(*ast.Ident); ok && id.Name == tg.Local {
+						rhs = a.Rhs[0]
+						return false
+					}
+				}
+				return true
+			})
+			if rhs == nil {
+				die("%s: no assignment to local %s", tg.Func, tg.Local)
+			}
+			body, _ = t.expr(rhs)
 		default:
 			die("unknown mode %q", tg.Mode)
 		}
